@@ -10,6 +10,7 @@ import os
 import random
 
 from .. import common as C
+from .. import memmodel as M
 from .. import tokenize as T
 
 PROP = "C03"
@@ -46,6 +47,8 @@ def render(layout, cpu, bpa, variant, order=None):
 def run(tier, seed):
     chk = C.Check(PROP, tier, seed, "model_checking")
     vdir = C.ensure_build("rel")
+    # the image itself (core/Memory.cpp) against Image.tla: every property that reads the image rests on it
+    M.run_image(chk, tier, seed, random.Random(seed + 17), PROP)
     rd = chk.rundir
     rnd = random.Random(seed)
 
